@@ -144,6 +144,7 @@ pub struct Conn {
     pub frozen: bool,
     pub tx_datagrams: u64,
     pub last_timeout_serviced: Option<Ns>,
+    pub same_instant_timeouts: u32,
 }
 
 #[derive(Clone, Debug)]
@@ -330,6 +331,18 @@ impl World {
         }
     }
 
+    /// world configured from the run context (logging, C20 variants)
+    pub fn from_ctx(ch: Chooser, ctx: &crate::runner::RunCtx) -> Self {
+        let mut w = Self::new(ch, crate::tap::new_tap());
+        w.log_on = ctx.log;
+        w.base += Duration::from_nanos(ctx.base_shift_ns);
+        w.drv.spurious = ctx.spurious;
+        if ctx.keep_trace_text {
+            w.trace_text = Some(Vec::new());
+        }
+        w
+    }
+
     pub fn instant(&self) -> Instant {
         self.base + Duration::from_nanos(self.now)
     }
@@ -444,6 +457,7 @@ impl World {
             frozen: false,
             tx_datagrams: 0,
             last_timeout_serviced: None,
+            same_instant_timeouts: 0,
         });
         self.touch(inc);
         self.logf(|| format!("node{} connect -> inc{} ch{}", node, inc, ch.0));
@@ -549,6 +563,7 @@ impl World {
         d.genuine = false;
         d.note = "corrupt";
         self.faults.hit("corrupt");
+        let original = d.bytes.clone();
         let len = d.bytes.len();
         match self.ch.weighted("net.corrupt.kind", &[6, 2, 1, 1]) {
             0 => {
@@ -580,8 +595,91 @@ impl World {
                 let n = (1 + self.ch.range_log("net.corrupt.span", 0, 31) as usize).min(len - start);
                 let mut noise = vec![0u8; n];
                 self.ch.bytes("net.corrupt.noise", &mut noise);
-                d.bytes[start..start + n].copy_from_slice(&noise);
+                // XOR with non-zero noise: the result always differs from the original, whatever
+                // the (randomised) ciphertext bytes are — overwriting could restore the original
+                // byte by chance and make the outcome depend on rustls/ring randomness
+                for (b, x) in d.bytes[start..start + n].iter_mut().zip(noise.iter()) {
+                    *b ^= *x | 1;
+                }
             }
+        }
+        // Restore every *structural* header byte (header form and long-header type bits, CID
+        // length bytes, token-length and Length varints of each coalesced long-header packet):
+        // damaging those would move later field boundaries into (randomised) ciphertext, so the
+        // outcome would depend on rustls/ring randomness and the run would not replay. All other
+        // damage (version, CID contents, packet number, payload, tag, truncation, extension) has a
+        // ciphertext-independent effect.
+        {
+            let mut off = 0usize;
+            let n = original.len().min(d.bytes.len());
+            while off < original.len() {
+                let b = &original[off..];
+                if b[0] & 0x80 == 0 {
+                    if off < n {
+                        d.bytes[off] = (d.bytes[off] & 0x7f) | (original[off] & 0x80);
+                    }
+                    break;
+                }
+                // long header: first byte bits 7,5,4; dcid len; scid len; token len; length
+                let mut r = crate::wire::Rd::new(b);
+                let mut structural: Vec<(usize, usize)> = Vec::new();
+                let ok = (|| -> Result<usize, crate::wire::Short> {
+                    let first = r.u8()?;
+                    let version = r.u32()?;
+                    let p = r.p;
+                    let dl = r.u8()? as usize;
+                    structural.push((p, 1));
+                    r.take(dl)?;
+                    let p = r.p;
+                    let sl = r.u8()? as usize;
+                    structural.push((p, 1));
+                    r.take(sl)?;
+                    if version == 0 || (first >> 4) & 3 == 3 {
+                        return Ok(b.len());
+                    }
+                    if (first >> 4) & 3 == 0 {
+                        let p = r.p;
+                        let tl = r.var()? as usize;
+                        structural.push((p, r.p - p));
+                        r.take(tl)?;
+                    }
+                    let p = r.p;
+                    let len = r.var()? as usize;
+                    structural.push((p, r.p - p));
+                    Ok(r.p + len)
+                })();
+                if off < n {
+                    d.bytes[off] = (d.bytes[off] & !0xb0) | (original[off] & 0xb0);
+                }
+                for (p, l) in structural {
+                    for i in off + p..(off + p + l).min(n) {
+                        d.bytes[i] = original[i];
+                    }
+                }
+                match ok {
+                    Ok(plen) if plen > 0 => off += plen,
+                    _ => break,
+                }
+            }
+            if d.bytes.len() == original.len() && d.bytes == original && !original.is_empty() {
+                // everything we damaged was structural: damage the tail instead
+                let last = d.bytes.len() - 1;
+                d.bytes[last] ^= 0x01;
+            }
+        }
+        if false {
+            // Turning a short header into a long one would make the "version", CID lengths and
+            // length fields come out of (randomised) ciphertext bytes: the outcome would depend
+            // on rustls/ring randomness and the run would not replay. Keep the header form and
+            // damage the packet elsewhere instead.
+            d.bytes[0] &= 0x7f;
+            let last = d.bytes.len() - 1;
+            d.bytes[last] ^= 0x01;
+        }
+        if d.bytes == original {
+            // two flips of the same bit cancel out (independent of the byte values)
+            d.genuine = true;
+            d.note = "corrupt-noop";
         }
     }
 
@@ -776,6 +874,7 @@ impl World {
                             frozen: false,
                             tx_datagrams: 0,
                             last_timeout_serviced: None,
+                            same_instant_timeouts: 0,
                         });
                         if peer != NO_INC && (peer as usize) < self.conns.len() && self.conns[peer as usize].peer == NO_INC && self.dgrams[dgram as usize].genuine {
                             self.conns[peer as usize].peer = inc;
@@ -850,6 +949,13 @@ impl World {
             }
             self.enter(node, inc);
             let now = self.instant();
+            if self.drv.spurious {
+                // an extra timeout-handler call when nothing is due must change nothing
+                let c = &mut self.conns[inc as usize];
+                if c.conn.poll_timeout().is_none_or(|t| t > now) {
+                    c.conn.handle_timeout(now);
+                }
+            }
             // endpoint events
             loop {
                 let c = &mut self.conns[inc as usize];
@@ -985,14 +1091,21 @@ impl World {
         let now = self.instant();
         let c = &mut self.conns[inc as usize];
         c.timer = None;
+        if c.last_timeout_serviced == Some(self.now) {
+            c.same_instant_timeouts += 1;
+        } else {
+            c.same_instant_timeouts = 0;
+        }
+        let stuck = c.same_instant_timeouts;
         c.last_timeout_serviced = Some(self.now);
+        if stuck > 32 {
+            self.violate("timeout-does-not-converge", format!("inc{}: poll_timeout() <= now after {} consecutive handle_timeout(now) + transmit drains at the same instant", inc, stuck));
+            return;
+        }
         if self.log_on {
             self.log.push(format!("t={} inc{} handle_timeout", fmt_t(self.now), inc));
         }
         c.conn.handle_timeout(now);
-        if self.drv.spurious {
-            self.conns[inc as usize].conn.handle_timeout(now);
-        }
         self.touch(inc);
     }
 
@@ -1070,6 +1183,29 @@ impl World {
             out.push(']');
         }
         out
+    }
+
+    /// A drained connection produces no further output, whatever it is fed (C08 / C20).
+    pub fn check_drained_silence(&mut self) {
+        let later = self.instant() + Duration::from_secs(1);
+        for i in 0..self.conns.len() {
+            if !self.conns[i].conn.is_drained() {
+                continue;
+            }
+            let node = self.conns[i].node;
+            self.enter(node, i as u32);
+            let c = &mut self.conns[i];
+            c.conn.handle_timeout(later);
+            let mut buf = Vec::new();
+            let tx = c.conn.poll_transmit(later, 4, &mut buf).is_some();
+            let to = c.conn.poll_timeout().is_some();
+            let ev = c.conn.poll().is_some();
+            let ee = c.conn.poll_endpoint_events().is_some() && c.drained_handled;
+            if tx || to || ev || ee {
+                self.violate("drained-connection-produced-output", format!("inc{} after is_drained(): poll_transmit={} poll_timeout={} poll={} poll_endpoint_events={}", i, tx, to, ev, ee));
+                return;
+            }
+        }
     }
 
     pub fn live_conns(&self) -> impl Iterator<Item = &Conn> {
